@@ -290,11 +290,14 @@ Inductive linefn :=
 | LWrap (p q : bytes)     (* prefix p / suffix q *)
 | LEach (v p q : bytes)   (* foreach v { out "p$(v)q" }: v is the iteration variable, which
                              lives in the enclosing function's variable table *)
+| LTryEach (v pre : bytes) (* foreach v { try { ...; <fails>; never }; out $v }: a try / tryerr / trypipe
+                             block that aborts emits exactly what ran before (and at) the failure: pre *)
 | LMatch (p : bytes).     (* match p: keep the lines that contain p *)
 Definition apply_line (f : linefn) (l : bytes) : bytes :=
   match f with
   | LWrap p q => p ++ l ++ q ++ [nl]
   | LEach _ p q => p ++ l ++ q ++ [nl]
+  | LTryEach _ pre => pre ++ l ++ [nl]
   | LMatch p => if contains p l then l ++ [nl] else []
   end.
 
@@ -361,6 +364,7 @@ Fixpoint each_vars (l : list lspec) : list bytes :=
   match l with
   | [] => []
   | SLines (LEach v _ _) :: l' => v :: each_vars l'
+  | SLines (LTryEach v _) :: l' => v :: each_vars l'
   | _ :: l' => each_vars l'
   end.
 Fixpoint nodup_bytes (l : list bytes) : bool :=
